@@ -443,97 +443,81 @@ def whole_array_enumeration(g, it):
     return ty is None or ty.startswith('[')
 
 
+def epilogue_candidates(db, f):
+    """(None, description) when the scalar epilogue of an argmax kernel selects among the candidates (row = x[t], col = t) for *every*
+    column t of the spilled index array x, by comparing the cells at those coordinates; else (reason, None)."""
+    from lm import iteralg as IA
+    sc, why = selection_scan(db, f)
+    if sc is None:
+        return why, None
+    M, r, c, C = sc['M'], sc['r'], sc['c'], sc['C']
+    if not common.is_call_on(M, 'StripedScores::matrix', ('p', 1)):
+        return f'the compared cells are read from {X.show(M, 60)}, not from the scores matrix', None
+    # c = t (position, or lo + position), r = x[t]
+    if IA.is_pos(c):
+        t, lo = c, 0
+    elif c[0] == 'bin' and c[1] == 'Add' and c[2][0] == 'k' and IA.is_pos(c[3]):
+        t, lo = c[3], c[2][1]
+    else:
+        return f'the column of a candidate is {X.show(c, 60)}, not its position t', None
+    if not (r[0] == 'at' and r[2] == c and r[1][0] == 'v' and f.local_ty(r[1][1]).startswith(('[', 'generic_array::GenericArray'))):
+        return f'the row of candidate t is {X.show(r, 60)}, not x[t] for the spilled index array x', None
+    xs = r[1]
+    ext = C.extents.get(t[1])
+    if not ext or len(ext) != 1 or not _complete_loop(f, t[1]):
+        return f'candidate positions {ext} are not one complete range', None
+    e = ext[0]
+    if e[0] == 'len':
+        hi, elo = e, ('k', 0)
+        whole_hi = e[1] == xs
+    elif e[0] == 'sub':
+        hi, elo = e[1], e[2]
+        ty = f.local_ty(xs[1])
+        whole_hi = common.is_len_of(hi, xs) or hi == ('len', xs) or common.is_usize_const(hi, 'C') or (hi[0] == 'k' and ty.startswith('[') and ty.rstrip(']').endswith('; ' + str(hi[1])))
+    else:
+        return f'candidate extent {e}', None
+    if not whole_hi or elo != ('k', lo):
+        return f'candidates cover t in {X.show(elo, 20)}..{X.show(hi, 40)}, not every column of the spilled array', None
+    if lo not in (0, 1):
+        return f'candidates start at column {lo}', None
+    if lo == 1:
+        # column 0 must be the initial candidate: best := M[x[0]][0] with coordinates (x[0], 0)
+        ic = sc.get('init_cell')
+        want = (M, ('at', xs, ('k', 0)), ('k', 0))
+        icoords = sc.get('init_coords') or []
+        ok0 = ic == want and ((len(icoords) == 1 and icoords[0] is not None and icoords[0][0] == 'call' and icoords[0][1].endswith(MC_NEW) and tuple(icoords[0][2]) == want[1:])
+                              or (len(icoords) == 2 and tuple(icoords) == want[1:]))
+        if not ok0:
+            return 'the scan starts at column 1 but column 0 is not the initial candidate', None
+    elif sc['how'] == 'loop':
+        # every column is compared in the loop: the initial value only has to be a lower bound that cannot win wrongly —
+        # a cell of the same matrix (then its coordinates must be the initial coordinates) or the least element
+        ic, iv = sc.get('init_cell'), sc['init']
+        icoords = sc.get('init_coords') or []
+        if ic is not None:
+            same = ic[0] == M and ((len(icoords) == 1 and icoords[0] is not None and ((icoords[0][0] == 'call' and icoords[0][1].endswith(MC_NEW) and tuple(icoords[0][2]) == ic[1:])
+                                                                                       or (icoords[0][0] == 'call' and icoords[0][1].endswith('Default::default') and ic[1:] == (('k', 0), ('k', 0)))))
+                                   or (len(icoords) == 2 and tuple(icoords) == ic[1:]))
+            if not same:
+                return 'the initial best value is not the cell at the initial coordinates', None
+        elif not _lower_bound_init(iv):
+            return f'the running best starts from {X.show(iv, 60)}: neither a cell of the matrix nor the least element', None
+    return None, f'candidates (x[t], t) for t in {lo}..{X.show(hi, 30)} ({sc["how"]})'
+
+
 def epilogue_position_semantics(db, ctx):
     """The scalar epilogues attribute to element t of the spilled array the column t."""
     ctx.rule('R7.2e', 'scalar epilogue: the column of a candidate is its position in the spilled index array; every column 0..C is a candidate; the winner is chosen by comparing cell values (R7.4)')
     n = 0
     for path in (AVX2 + 'argmax_f32_avx2', AVX2 + 'argmax_u8_avx2', SSE2 + 'argmax_sse2'):
         f = db.fn(path)
-        bodies = [f] + db.closures_of(f)
-        ok = False
-        cmp_cells = False
-        for g in bodies:
-            R = X.Rec(g)
-            for bi, t in g.calls():
-                c = g.callee_short(t) or ''
-                if c.endswith('MatrixCoordinates::new'):
-                    a0, a1 = norm(R.operand(t['args'][0])), norm(R.operand(t['args'][1]))
-                    # (row as usize, col) with (col, row) = enumerate element, or closure param tuple (col, row)
-                    b0 = m(('fld', ('elem', '$s', '$L'), '1'), a0)
-                    b1 = m(('fld', ('elem', '$s', '$L'), '0'), a1)
-                    if b0 is not None and b1 is not None and b0 == b1 and whole_array_enumeration(g, b0['$s']):
-                        ok = True
-                    if m(('fld', ('p', 2), '1'), a0) is not None and m(('fld', ('p', 2), '0'), a1) is not None:
-                        # closure (col, row) -> coordinates: its parent must map it over the whole spilled array
-                        for pbi, pt in f.calls():
-                            if (f.callee_short(pt) or '').endswith('Iterator::max_by_key'):
-                                recv = norm(X.Rec(f).operand(pt['args'][0]))
-                                mm = m(('call~', 'Iterator::map', ('$it', '_')), recv)
-                                if mm is not None and whole_array_enumeration(f, mm['$it']):
-                                    ok = True
-                    # sse2: best_row / best_col assigned from (row = output[col], col)
-                if c.endswith('::index') and 'MatrixCoordinates' in (t.get('callee_full') or t.get('resolved_full') or ''):
-                    cmp_cells = True
-                if c.endswith(('Iterator::max_by_key',)):
-                    cmp_cells = True
-            if path.endswith('argmax_sse2'):
-                for s in X.stores(g, R):
-                    pass
-                # score = data[row][col] with row = output[col]
-                for blk in g.blocks:
-                    for st in blk['stmts']:
-                        if st['k'] == 'assign' and st['rv']['k'] == 'use':
-                            e = norm(R.rvalue(st['rv']))
-                            b = m(('idx', ('call~', '::index', ('$data', '$r')), '$c'), e)
-                            cf = common.cell_form(b['$r']) if b is not None else None
-                            if cf is not None and norm(cf[1]) == norm(b['$c']):
-                                # candidate (row = output[t], col = t) for every t: t ranges over exactly 0..C::USIZE, or over the whole spilled array
-                                xs = norm(cf[0])
-                                whole = cf[3][0] == 'len' and norm(cf[3][1]) == xs and xs[0] == 'v' and g.local_ty(xs[1]).startswith(('[', 'generic_array::GenericArray'))
-                                if common.is_usize_const(cf[3], 'C') or whole:
-                                    ok = True
-                                    cmp_cells = True
-        if not ok:
-            # index-loop forms: candidates MatrixCoordinates::new(x[t] as usize, t) with t over 0..len(x), possibly split into t = 0 (initial
-            # candidate) and t in 1..len(x) (loop)
-            covered = set()
-            full = False
-            arr = None
-            for g in bodies:
-                R = X.Rec(g)
-                for bi, t in g.calls():
-                    if not (g.callee_short(t) or '').endswith('MatrixCoordinates::new'):
-                        continue
-                    a0, a1 = norm(R.operand(t['args'][0])), norm(R.operand(t['args'][1]))
-                    bi_ = m(('idx', '$x', '$t'), a0)
-                    if bi_ is None or bi_['$t'] != a1 or bi_['$x'][0] != 'v' or not g.local_ty(bi_['$x'][1]).startswith('['):
-                        continue
-                    arr = bi_['$x']
-                    if a1[0] == 'k' and isinstance(a1[1], int):
-                        covered.add(a1[1])
-                    elif a1[0] == 'elem' and a1[1][0] == 'agg' and len(a1[1][2]) == 2:
-                        lo, hi = norm(a1[1][2][0]), norm(a1[1][2][1])
-                        whole_hi = common.is_len_of(hi, arr) or (hi[0] == 'k' and str(hi[1]) in g.local_ty(arr[1])) or common.is_usize_const(hi, 'C')
-                        if whole_hi and lo[0] == 'k' and isinstance(lo[1], int):
-                            covered.add(('from', lo[1]))
-            for c_ in covered:
-                if isinstance(c_, tuple) and all(k in covered for k in range(c_[1])):
-                    full = True
-            if full:
-                ok = True
-                # winner by comparing cells: a comparison between two data[pos] reads guards the update
-                for g in bodies:
-                    for bi in range(len(g.blocks)):
-                        t = g.term(bi)
-                        if t['k'] == 'switch' and t.get('discr_ty') == 'bool':
-                            d = norm(X.Rec(g).at(bi).operand(t['discr']))
-                            if d[0] == 'bin' and d[1] in ('Gt', 'Ge', 'Lt', 'Le') and any(x[0] == 'call' and x[1].endswith('::index') and 'MatrixCoordinates' in X.canon(x) for x in X.walk(d)):
-                                cmp_cells = True
-        if ok and cmp_cells:
+        why, desc = epilogue_candidates(db, f)
+        if why is None:
             n += 1
-            ctx.ok('R7.2e', f, 'candidate (row = x[t], col = t); winner chosen by comparing data[pos]')
+            ctx.ok('R7.2e', f, 'candidate (row = x[t], col = t) for every column t; winner chosen by comparing data[pos]', [desc])
         else:
-            ctx.fail('R7.2e', f, 'scalar epilogue', f'cannot match the epilogue to (row = spilled[t], col = t) over *every* column t in 0..C with a comparison of cell values (position/coverage={ok}, compares cells={cmp_cells})')
+            ctx.fail('R7.2e', f, 'scalar epilogue', why if why.startswith('reason=') else
+                     f'cannot match the epilogue to (row = spilled[t], col = t) over *every* column t in 0..C with a comparison of cell values: {why}')
     ctx.floor('R7.2e', n, 3, 'argmax epilogues')
 
 
@@ -645,28 +629,156 @@ def r76(db, ctx):
     ctx.floor('R7.6', n, 3, 'StripedScores reductions')
 
 
-def generic_argmax_form(f):
-    """(True, None) when f is the scan `best := first cell; for every cell x at (i, j): if x >= best { best, coords := x, (i, j) }; Some(coords)`,
-    whatever the loop spelling and the names / grouping of the state variables; else (False, reason)."""
-    from lm import iteralg as IA
+MC_NEW = 'MatrixCoordinates::new'
+
+
+def _cell_view(v):
+    """Canonical value -> (M, row, col) when v reads one cell of a matrix: M[row][col] or M[MatrixCoordinates::new(row, col)]."""
+    if v[0] != 'at':
+        return None
+    if v[1][0] == 'at':
+        return (v[1][1], v[1][2], v[2])
+    if v[2][0] == 'call' and v[2][1].endswith(MC_NEW) and len(v[2][2]) == 2:
+        return (v[1], v[2][2][0], v[2][2][1])
+    return None
+
+
+def selection_scan(db, f):
+    """The "running best" selection of a cell of a matrix, whatever its spelling:
+
+        best := init; for each candidate (r, c): if M[r][c] >= best { best := M[r][c]; coords := (r, c) }; Some(coords)
+        candidates.map(|..| MatrixCoordinates::new(r, c)).max_by_key(|&pos| &M[pos])
+
+    Returns (dict(M, r, c, C, how, init, init_cell, strict), None) or (None, reason).  r / c are canonical in the positions of the loops
+    (see lm.iteralg); the caller decides which candidates are required.  Checked here: the compared value is the candidate's own cell, the
+    comparison is cell >= / > running best, the coordinates are updated under that same comparison to the candidate's coordinates, and
+    those coordinates are what is returned."""
+    from lm import iteralg as IA, reduce as RD
     R = X.Rec(f)
-    C = IA.Canon(f, R)
+    C = RD.RCanon(db, f, R)
+    # iterator form: the returned value is max_by_key over mapped candidates
+    for bi, t in f.calls():
+        if t['dest']['l'] == 0 and not t['dest']['pr'] and (f.callee_short(t) or '').endswith('Iterator::max_by_key'):
+            e = norm(R.call(t))
+            L = RD._fresh()
+            el = C.elem_of(e[2][0], L)
+            if el is None:
+                return None, 'reason=unrecognised-shape: candidates of max_by_key not understood'
+            key = RD.apply_fn(db, e[2][1], [el[0]])
+            cand = el[0]
+            if key is None or not (cand[0] == 'call' and cand[1].endswith(MC_NEW) and len(cand[2]) == 2):
+                return None, f'reason=unrecognised-shape: max_by_key candidate {X.show(cand, 80)}'
+            kv = _cell_view(C.canon(key))
+            if kv is None or (kv[1], kv[2]) != (cand[2][0], cand[2][1]):
+                return None, 'the key of a candidate is not the cell at its own coordinates'
+            C.extents[L] = el[1]
+            return dict(M=kv[0], r=kv[1], c=kv[2], C=C, how='max_by_key', init=None, init_cell=None, strict=False, R=R), None
     in_loop = lambda b: any(b in L['body'] for L in f.loops())
     val = lambda d: C.canon(R.call(d[2]) if d[1] == 'term' else R.rvalue(d[2]))
-    # the running best value: a local updated in the loops with a cell of the matrix, from an initial cell of the same matrix
     cands = []
     for l, ds in f.defs().items():
         upd = [d for d in ds if in_loop(d[0])]
         ini = [d for d in ds if not in_loop(d[0])]
         if len(upd) != 1 or len(ini) != 1:
             continue
-        v = val(upd[0])
-        if v[0] == 'at' and v[1][0] == 'at' and IA.is_pos(v[2]) and IA.is_pos(v[1][2]):
-            cands.append((l, upd[0], ini[0], v))
+        try:
+            v = val(upd[0])
+        except Exception:
+            continue
+        cv = _cell_view(v)
+        if cv is not None and f.local_ty(l) in ('f32', 'u8', 'T', 'i16', 'u16', 'i32', 'u32'):
+            cands.append((l, upd[0], ini[0], v, cv))
     if len(cands) != 1:
-        return False, f'reason=unrecognised-shape: {len(cands)} running-best locals updated with a matrix cell'
-    S, upd, ini, cell = cands[0]
-    M, prow, pcol = cell[1][1], cell[1][2], cell[2]
+        return None, f'reason=unrecognised-shape: {len(cands)} running-best locals updated with a matrix cell'
+    S, upd, ini, cell, (M, r, c) = cands[0]
+    rels = G.relations(f, R, upd[0])
+    g = []
+    for rr in rels:
+        if not in_loop(rr[-1]) or rr[0] not in ('ge', 'gt', 'le', 'lt'):
+            continue
+        a_, b_ = (rr[1], rr[2]) if rr[0] in ('ge', 'gt') else (rr[2], rr[1])
+        if C.canon(a_) == cell and norm(b_) == ('v', S):
+            g.append((rr, rr[0] in ('gt', 'lt')))
+    if not g:
+        return None, 'comparison is not cell >= running best'
+    gd, strict = g[-1][0][-1], g[-1][1]
+    coords = {}
+    for l, ds in f.defs().items():
+        for d in ds:
+            if l == S or not in_loop(d[0]) or not f.dominates(gd, d[0]):
+                continue
+            if not any(rr[-1] == gd for rr in G.relations(f, R, d[0])):
+                continue
+            v = val(d)
+            if v == r and v != c:
+                coords[l] = 'row'
+            elif v == c and v != r:
+                coords[l] = 'col'
+            elif v[0] == 'call' and v[1].endswith(MC_NEW) and tuple(v[2]) == (r, c):
+                coords[l] = 'both'
+    ret = [norm(R.rvalue(st['rv'])) for blk in f.blocks for st in blk['stmts'] if st['k'] == 'assign' and st['p']['l'] == 0 and not st['p']['pr']
+           and st['rv']['k'] == 'agg' and st['rv'].get('variant') == 'Some']
+    if len(ret) != 1:
+        return None, f'reason=unrecognised-shape: {len(ret)} Some(..) results'
+    rv = ret[0][2][0] if ret[0][0] == 'agg' and ret[0][2] else None
+    okr, clocals = False, []
+    if rv is not None and rv[0] == 'v' and coords.get(rv[1]) == 'both':
+        okr, clocals = True, [rv[1]]
+    elif rv is not None and rv[0] == 'call' and rv[1].endswith(MC_NEW) and len(rv[2]) == 2:
+        a_, b_ = norm(rv[2][0]), norm(rv[2][1])
+        okr = a_[0] == 'v' and b_[0] == 'v' and coords.get(a_[1]) == 'row' and coords.get(b_[1]) == 'col'
+        clocals = [a_[1], b_[1]] if okr else []
+    if not okr:
+        return None, 'row / col / value are not the same cell or not updated under one comparison (the returned coordinates do not travel with the running best)'
+    # initial state: value and coordinates
+    iv = val(ini)
+    init_coords = []
+    for l in clocals:
+        d0 = [d for d in f.defs()[l] if not in_loop(d[0])]
+        init_coords.append(val(d0[0]) if len(d0) == 1 else None)
+    # data[best_pos] / data[best_row][best_col] evaluated while the coordinate locals still hold their initial values
+    if all(x is not None for x in init_coords):
+        env = {('v', l): x for l, x in zip(clocals, init_coords)}
+
+        def sub(e):
+            if isinstance(e, tuple):
+                return env[e] if e in env else tuple(sub(y) if isinstance(y, tuple) else y for y in e)
+            return e
+        before = lambda a_, b_: (a_[0] != b_[0] and f.dominates(a_[0], b_[0])) or (a_[0] == b_[0] and a_[1] != 'term' and (b_[1] == 'term' or a_[1] < b_[1]))
+        if all(before(d0, ini) for l in clocals for d0 in f.defs()[l] if not in_loop(d0[0])):
+            iv = sub(iv)
+    init_cell = _cell_view(iv)
+    if init_cell is None and iv[0] == 'at' and iv[2][0] == 'call' and iv[2][1].endswith('Default::default'):
+        init_cell = (iv[1], ('k', 0), ('k', 0))
+    return dict(M=M, r=r, c=c, C=C, how='loop', init=iv, init_cell=init_cell, init_coords=init_coords, strict=strict, R=R, S=S), None
+
+
+def _complete_loop(f, lid):
+    h = common.loop_of_elem(f, ('elem', None, lid)) if not isinstance(lid, tuple) else (lid[1] if lid[0] == 'while' else None)
+    if isinstance(lid, tuple) and lid[0] == 'pipe':
+        return True
+    L = [L_ for L_ in f.loops() if L_['header'] == h]
+    can = f.postdominators()
+    return bool(L) and len([1 for x, y in L[0]['exits'] if y in can]) == 1
+
+
+def _lower_bound_init(iv, ty='f32'):
+    iv = norm(iv)
+    if iv[0] == 'un' and iv[1] == 'Neg' and iv[2][0] == 'k' and iv[2][1] == float('inf'):
+        return True
+    return iv[0] == 'k' and (iv[1] == float('-inf') or (iv[1] == 0 and not isinstance(iv[1], float)))
+
+
+def generic_argmax_form(db, f):
+    """(True, None) when f is the scan `best := first cell; for every cell x at (i, j): if x >= best { best, coords := x, (i, j) }; Some(coords)`,
+    whatever the loop spelling and the names / grouping of the state variables; else (False, reason)."""
+    from lm import iteralg as IA
+    sc, why = selection_scan(db, f)
+    if sc is None:
+        return False, why
+    M, prow, pcol, C = sc['M'], sc['r'], sc['c'], sc['C']
+    if not (IA.is_pos(prow) and IA.is_pos(pcol)):
+        return False, f'candidates ({X.show(prow, 40)}, {X.show(pcol, 40)}) are not the positions of a row / column scan'
     if not (common.is_call_on(M, 'StripedScores::matrix', ('p', 2)) or norm(M) == ('p', 2)):
         return False, f'the scanned matrix is {X.show(M, 60)}, not the scores argument'
     er, ec = C.extents.get(prow[1]), C.extents.get(pcol[1])
@@ -674,50 +786,12 @@ def generic_argmax_form(f):
     cols_ok = bool(ec) and len(ec) == 1 and ((ec[0][0] == 'sub' and ec[0][2] == ('k', 0) and common.is_usize_const(ec[0][1], 'C')) or ec[0] == ('len', ('at', M, prow)))
     if not rows_ok or not cols_ok:
         return False, f'the scan does not cover all rows and all C columns (row extent {er}, column extent {ec})'
-    for lid in (prow[1], pcol[1]):
-        h = common.loop_of_elem(f, ('elem', None, lid)) if not isinstance(lid, tuple) else lid[1]
-        L = [L_ for L_ in f.loops() if L_['header'] == h]
-        can = f.postdominators()
-        if not L or len([1 for x, y in L[0]['exits'] if y in can]) != 1:
-            return False, 'a scan loop can be left early'
-    iv = val(ini)
-    if not (iv[0] == 'at' and any(x == ('p', 2) for x in X.walk(iv))):
-        return False, f'the running best starts from {X.show(iv, 60)}, not from a cell of the matrix'
-    # guard: cell >= best, decided inside the inner loop
-    rels = G.relations(f, R, upd[0])
-    g = [r for r in rels if r[0] in ('ge', 'le') and in_loop(r[-1])]
-    g = [r for r in g if (r[0] == 'ge' and C.canon(r[1]) == cell and norm(r[2]) == ('v', S)) or (r[0] == 'le' and C.canon(r[2]) == cell and norm(r[1]) == ('v', S))]
-    if not g:
-        return False, 'comparison is not cell >= running best'
-    gd = g[-1][-1]
-    # the coordinates travel with the value: updated under the same comparison, to the position of the same cell
-    coords = {}
-    for l, ds in f.defs().items():
-        for d in ds:
-            if l == S or not in_loop(d[0]) or not f.dominates(gd, d[0]):
-                continue
-            if not any(r[-1] == gd for r in G.relations(f, R, d[0])):
-                continue
-            v = val(d)
-            if v == prow:
-                coords[l] = 'row'
-            elif v == pcol:
-                coords[l] = 'col'
-            elif v[0] == 'call' and v[1].endswith('MatrixCoordinates::new') and tuple(v[2]) == (prow, pcol):
-                coords[l] = 'both'
-    ret = [norm(R.rvalue(st['rv'])) for blk in f.blocks for st in blk['stmts'] if st['k'] == 'assign' and st['p']['l'] == 0 and not st['p']['pr']
-           and st['rv']['k'] == 'agg' and st['rv'].get('variant') == 'Some']
-    if len(ret) != 1:
-        return False, f'reason=unrecognised-shape: {len(ret)} Some(..) results'
-    r = ret[0][2][0] if ret[0][0] == 'agg' and ret[0][2] else None
-    okr = False
-    if r is not None and r[0] == 'v' and coords.get(r[1]) == 'both':
-        okr = True
-    elif r is not None and r[0] == 'call' and r[1].endswith('MatrixCoordinates::new') and len(r[2]) == 2:
-        a_, b_ = norm(r[2][0]), norm(r[2][1])
-        okr = a_[0] == 'v' and b_[0] == 'v' and coords.get(a_[1]) == 'row' and coords.get(b_[1]) == 'col'
-    if not okr:
-        return False, 'row / col / value are not the same cell or not updated under one comparison (the returned coordinates do not travel with the running best)'
+    if not (_complete_loop(f, prow[1]) and _complete_loop(f, pcol[1])):
+        return False, 'a scan loop can be left early'
+    if sc['how'] == 'loop':
+        iv = sc['init']
+        if not (iv[0] == 'at' and any(x == ('p', 2) for x in X.walk(iv))):
+            return False, f'the running best starts from {X.show(iv, 60)}, not from a cell of the matrix'
     return True, None
 
 
@@ -728,7 +802,7 @@ def r7_generic(db, ctx):
         ctx.fail('R7.4', 'lightmotif::pli::Maximum::argmax', 'default body', 'reason=anchor-missing')
         return
     f = fs[0]
-    ok, why = generic_argmax_form(f)
+    ok, why = generic_argmax_form(db, f)
     (ctx.ok if ok else ctx.fail)('R7.4', f, 'generic argmax: (best_row, best_col, best_score) := (i, j, row[j]) when row[j] >= best_score', *([['all rows, all C columns']] if ok else [why]))
     fm = [g for g in db.by_short.get('lightmotif::pli::Maximum::max', []) if g.raw.get('trait_default_of')]
     if fm:
